@@ -1481,6 +1481,8 @@ class Interp:
         if isinstance(f, ExcClass):
             return ExcInstance(f.name, tuple(args))
         if isinstance(f, Opaque):
+            if str(f.why).startswith(("logging.", "warnings.warn")):
+                return None     # logging has no effect on any value the program computes
             raise Unsupported(f"call of {f}")
         if isinstance(f, self.lib.Model):
             return f(self, *args, **kwargs)
